@@ -628,7 +628,7 @@ def _run_gather(method, prefix_name, sort, has_exclude, first_call, wrong=None):
             return builtins.hasattr(v, name)
         def m_getattr(v, name, *dflt):
             if isinstance(v, Val) and name == method:
-                cm = ChildMethod(w, v.a); call = cm.__call__
+                cm = ChildMethod(w, v.a)
                 def wrapped(*aa, **kk):
                     s = cm(*aa, **kk); s.attr = v.a; return s
                 return wrapped
@@ -636,7 +636,6 @@ def _run_gather(method, prefix_name, sort, has_exclude, first_call, wrong=None):
         def m_xdir(obj, return_values=False):
             if obj is not slf or not return_values: raise PUnsupported("xdir")
             return attrs
-        class FillerSeq: pass
         def m_sort_gathered(items):
             """CONTRACT of _sort_gathered_items (proved for all lists in C12_sort_proof.py): every item occurs exactly once, every other slot holds a new reserved CSR"""
             if not isinstance(items, RList): raise PUnsupported("_sort_gathered_items argument")
